@@ -244,6 +244,58 @@ def keyed_gate(ctx, sw, w, label, raw, recips, inner, want, alg, sk):
                 ctx.fail('keyed-gate', 'a malformed integrity structure was accepted', {'op': 'fault', 'blob': blob.hex(), 'recipient': list(r), 'want': None, 'mutation': name})
 
 
+def run_history(w, raw, steps):
+    """several decrypt calls on ONE parsed message object; steps: list of recipient tuples; returns the outcomes"""
+    with warnings.catch_warnings():
+        warnings.simplefilter('ignore')
+        em = w.pgpy.PGPMessage.from_blob(raw)
+    return [w.impl_decrypt_obj(em, r) for r in steps]
+
+
+def history_bad(outs, steps, rights, want):
+    """index of the first step whose outcome is not what a fresh object gives: a recipient gets the plaintext, anyone else raises"""
+    for i, (o, r) in enumerate(zip(outs, steps)):
+        if tuple(r[:2]) in rights:
+            if o != ('ok', want):
+                return i
+        elif o[0] != 'raise':
+            return i
+    return None
+
+
+def histories(ctx, sw, w, label, raw, recips, inner, want):
+    """decrypt is a function of (message, secret) in the model.  The implementation is called repeatedly on the SAME message object:
+    a successful decrypt must not leave anything behind that lets a later call with a wrong passphrase / a non-recipient key succeed
+    (and a failed one must not spoil a later right one).  Each step is also compared with the model's verdict for a fresh object."""
+    rights = {tuple(r[:2]) for r in recips}
+    wrong_p = [('P', 'wrong'), ('P', ''), ('P', b'\x00'), ('P', 'pw0 '), ('P', b'')]
+    wrong_k = [('K', kn) for kn in w.keys if ('K', kn) not in rights]
+    seqs = []
+    for r in recips:
+        others = (wrong_p if r[0] == 'P' else wrong_k[:3]) + (wrong_k[:1] if r[0] == 'P' else wrong_p[:2])
+        seqs.append([r] + others)                          # right, then every wrong one
+        seqs.append(others[:2] + [r] + others + [r])       # wrong, right, wrong..., right again
+        for x in others[:3]:
+            seqs.append([r, x])
+    if len(recips) > 1:
+        seqs.append(list(recips) + wrong_p[:2] + wrong_k[:1] + list(reversed(recips)))
+    for steps in seqs:
+        outs = run_history(w, raw, steps)
+        case = {'op': 'history', 'msg': label, 'blob': raw.hex(), 'steps': [[r[0], r[1].hex() if isinstance(r[1], bytes) else r[1], isinstance(r[1], bytes)] for r in steps],
+                'rights': [list(x) for x in sorted(rights)], 'want': want}
+        ctx.case('same-object-history', (label, tuple((r[0], r[1]) for r in steps)), sample={'msg': label, 'steps': [str(r[1])[:12] for r in steps], 'outcomes': [o[0] for o in outs]})
+        bad = history_bad(outs, steps, rights, want)
+        if bad is not None:
+            ctx.fail('same-object-history', 'decrypt call %d on a message object that was decrypted before %s' %
+                     (bad + 1, 'returned a plaintext for a wrong passphrase / non-recipient key' if tuple(steps[bad][:2]) not in rights else 'no longer works for a recipient'),
+                     dict(case, outcomes=[repr(o)[:60] for o in outs]))
+        for o, r in zip(outs, steps):
+            mo = w.model_decrypt(raw, r)
+            if 'Unmodelled' not in mo and mo.startswith('ok ') != (o[0] == 'ok'):
+                ctx.fail('same-object-history', 'outcome on a used message object differs from the model (a function of message and secret)',
+                         dict(case, step=[r[0], str(r[1])], impl=repr(o)[:80], model=mo[:80]))
+
+
 def downgrade_witness(ctx, sw, w):
     """deterministic reproduction of the finding: fresh messages until the re-framed one 'decrypts' (the garbage first block
     parses as a packet in roughly one message out of ten)"""
@@ -348,6 +400,7 @@ def run(ctx):
                 for name, blob in rsa_quick_mutations(ctx, raw, raw2, alg):
                     sw.one('structural', label, name, blob, recips[0], inner, want)
             keyed_gate(ctx, sw, w, label, raw, recips, inner, want, alg, sk)
+            histories(ctx, sw, w, label, raw, recips, inner, want)
             wrong_secrets(ctx, sw, w, label, raw, recips, inner, want)
         downgrade_witness(ctx, sw, w)
         ctx.notes.append('model exception vs implementation exception on rejected inputs: %s' %
@@ -384,6 +437,10 @@ def replay(ctx, case):
     try:
         if case.get('blob') is None:
             return True
+        if case.get('op') == 'history':
+            steps = [(k, bytes.fromhex(v) if isb else v) for k, v, isb in case['steps']]
+            outs = run_history(w, bytes.fromhex(case['blob']), steps)
+            return history_bad(outs, steps, {tuple(x) for x in case['rights']}, case['want']) is not None
         o = w.impl_decrypt(bytes.fromhex(case['blob']), tuple(case['recipient']))
         if o[0] == 'raise':
             return False
